@@ -203,7 +203,12 @@ func boundsFor(thorough bool) bounds {
 
 // enumerate calls add for every scenario of the tier, in a fixed order; every scenario has a distinct id
 // by construction (the families are disjoint).
-func enumerate(thorough bool, add func(s scen)) {
+func enumerate(thorough bool, add0 func(s scen)) {
+	seenID := map[string]bool{}
+	add := func(s scen) {
+		seenID[s.id()] = true
+		add0(s)
+	}
 	base := variant("13-direct")
 	b := boundsFor(thorough)
 	acts1 := quickActs
@@ -303,6 +308,47 @@ func enumerate(thorough bool, add func(s scen)) {
 			add(scen{V: base, Ops: full, Gap: -1, Replay: true})
 			add(scen{V: base, Ops: full, Gap: 0, Replay: true})
 			add(scen{V: base, Ops: full, Gap: 2, Mask: world.Mask{{FromClient: k.side() == cli, Idx: n - 1, Act: world.ActDrop}}, Replay: true})
+		}
+	}
+	// H. pile-ups: one side issues a burst U, then 2..L further operations of its own from {U, W}, all
+	// started at the same quiescent point (the first KeyUpdate is unacknowledged, everything else queues
+	// behind it), while the peer starts nothing, a Write, or an UpdateKeys with or without a request for a
+	// peer update; fault-free and with the bursting side's first datagram held back by one emission.
+	pile := 4
+	if thorough {
+		pile = 5
+	}
+	for _, sd := range []side{cli, srv} {
+		uNo, uReq, wr := opUcNo, opUcReq, opWc
+		pNo, pReq, pW := opUsNo, opUsReq, opWs
+		if sd == srv {
+			uNo, uReq, wr, pNo, pReq, pW = opUsNo, opUsReq, opWs, opUcNo, opUcReq, opWc
+		}
+		var tails [][]opKind
+		var rec func(cur []opKind)
+		rec = func(cur []opKind) {
+			if len(cur) >= 2 {
+				tails = append(tails, append([]opKind(nil), cur...))
+			}
+			if len(cur) == pile {
+				return
+			}
+			rec(append(cur, uNo))
+			rec(append(cur, wr))
+		}
+		rec(nil)
+		for _, first := range []opKind{uNo, uReq} {
+			for _, tail := range tails {
+				for _, peer := range [][]opKind{nil, {pW}, {pNo}, {pReq}} {
+					ops := append(append([]opKind{first}, tail...), peer...)
+					for _, m := range []world.Mask{nil, {{FromClient: sd == cli, Idx: 0, Act: world.ActHold1}}} {
+						sc := scen{V: base, Ops: ops, Gap: 0, Mask: m}
+						if !seenID[sc.id()] {
+							add(sc)
+						}
+					}
+				}
+			}
 		}
 	}
 	// F. other configurations: connection IDs, other suites
